@@ -938,7 +938,10 @@ def check_limit_case(xml, q, qd, act, name):
   ua, ub = unit_dev(a1), unit_dev(b1)
   info = dict(twin_diff=dabs, unit_dev=max(ua, ub))
   if max(ua, ub) > TOL_UNIT:
-    return dict(base, key=f'limit:{name}:unit', what=f'{name} step returns | ||rot|| - 1 | = {max(ua, ub):.3e}'), info
+    no_pairs = not np.isfinite(float(pa.min_dist(a1.x)))
+    key = KEY_D3 if (name == 'positional' and no_pairs) else f'limit:{name}:unit'
+    return dict(base, key=key, what=f'{name} step returns | ||rot|| - 1 | = {max(ua, ub):.3e}'
+                + (' on a model without contact pairs' if no_pairs else '')), info
   if ratio > TOL:
     key = KEY_D7 if (name == 'positional' and lefthanded_3hinge(sa)) else f'limit:{name}:state'
     return dict(base, key=key, what=f'{name}: one step with unreached range limits (q strictly inside every range before and after) '
